@@ -38,6 +38,13 @@ func (m Registry) Check(t *explore.Transition) ([]V, bool) {
 	}
 	var out []V
 	nontrivial := false
+	// (0) the registry as the committed state holds it (owner, symbol, version, supply bounds: what a
+	// restarted node or a query at this height decides "only the owner may ..." on) is the node's
+	for _, d := range post.DiskDiff {
+		if strings.HasPrefix(d.Key, "coin/") {
+			out = append(out, V{Signature: "committed-registry-differs|" + obs.KeyClass(d.Key) + "|" + blockTypes(t.Cur), Detail: fmt.Sprintf("%s: the node holds %q, its committed state %q", d.Key, d.A, d.B)})
+		}
+	}
 	// (1) active (version 0) symbols are unique
 	seen := map[string]uint64{}
 	for _, c := range post.Export.Coins {
